@@ -145,6 +145,8 @@ CO_ERR COSdoResponse(CO_SDO *srv)
             result = COSdoEndUploadBlock(srv);
         } else if ((cmd & 0xE3) == 0xA2) {
             result = COSdoAckUploadBlock(srv);
+        } else if ((cmd == 0xA3) && (srv->Blk.SegCnt == 0)) {
+            result = COSdoUploadBlock(srv);       /* start of upload */
         } else {
             COSdoAbort(srv, CO_SDO_ERR_CMD);
             COSdoAbortReq(srv);
@@ -183,8 +185,6 @@ CO_ERR COSdoResponse(CO_SDO *srv)
         }
     } else if ((cmd & 0xE3) == 0xA0) {
         result = COSdoInitUploadBlock(srv);
-    } else if (cmd == 0xA3) {
-        result = COSdoUploadBlock(srv);
 
     /* invalid or unknown command */
     } else {
@@ -771,6 +771,10 @@ CO_ERR COSdoInitUploadBlock(CO_SDO *srv)
     srv->Blk.LastValid = 0xFF;
     srv->Blk.Len       = srv->Blk.Size;
     srv->Blk.SegOk     = 0;
+    srv->Blk.SegCnt    = 0;
+    srv->Blk.State     = BLK_UPLOAD;
+    srv->Buf.Cur       = srv->Buf.Start;
+    srv->Buf.Num       = 0;
 
     if (size <= 4) {
         /* no action for basic type entry */
@@ -790,108 +794,86 @@ CO_ERR COSdoUploadBlock(CO_SDO *srv)
 {
     CO_ERR   result = CO_ERR_SDO_SILENT;
     CO_ERR   err;
-    uint32_t size;
-    uint32_t num = 0;
-    uint32_t txNum;
-    uint32_t byteOk = 0;
+    uint32_t num;
+    uint32_t rest;
+    uint32_t byteOk;
     uint8_t *txBuf;
-    uint8_t  finished =  0;
     uint8_t  seg;
     uint8_t  len;
     uint8_t  i;
 
-    srv->Buf.Cur = srv->Buf.Start;
-    srv->Buf.Num = 0u;
-    num          = srv->Blk.SegNum * 7u;
+    /* The transfer buffer holds all bytes, which are read out of the object
+     * and not acknowledged by the client up to now (Buf.Num bytes, starting
+     * at Buf.Start). Remove the segments the client has acknowledged; the
+     * unacknowledged data moves to the start of the buffer.
+     */
+    byteOk = (uint32_t)srv->Blk.SegOk * 7u;
+    if (byteOk > srv->Buf.Num) {
+        byteOk = srv->Buf.Num;
+    }
+    if (byteOk > 0u) {
+        srv->Buf.Cur = srv->Buf.Start;
+        txBuf        = srv->Buf.Start + byteOk;
+        num          = srv->Buf.Num - byteOk;
+        while (num > 0u) {
+            *srv->Buf.Cur = *txBuf;
+            srv->Buf.Cur++;
+            txBuf++;
+            num--;
+        }
+        srv->Buf.Num -= byteOk;
+    }
+    srv->Blk.SegOk = 0;
 
-    if (srv->Blk.State == BLK_REPEAT) {
-        /* calculate number of bytes we need to repeat */
-        byteOk        = srv->Blk.SegOk * 7u;
-        num           = srv->Blk.SegCnt * 7u;
-        num          -= byteOk;
-        srv->Buf.Num  = num;
-        srv->Blk.Len += num;
-        if (srv->Blk.LastValid < 7) {
-            srv->Blk.Len -= (7u - srv->Blk.LastValid);
+    /* fill up the transfer buffer to the size of the requested block */
+    num = (uint32_t)srv->Blk.SegNum * 7u;
+    if ((srv->Blk.Size > 0u) && (num > srv->Buf.Num)) {
+        num -= srv->Buf.Num;
+        if (num > srv->Blk.Size) {
+            num = srv->Blk.Size;
         }
-        if (srv->Blk.SegOk > 0) {
-            /* remove successful transfered bytes at the front */
-            srv->Buf.Cur  = srv->Buf.Start;
-            txBuf         = srv->Buf.Start + byteOk;
-            txNum         = num;
-            while(txNum > 0) {
-                *srv->Buf.Cur = *txBuf;
-                srv->Buf.Cur++;
-                txBuf++;
-                txNum--;
-            }
-        } else {
-            /* repeat whole buffer (no remaining bytes needed) */
-            num = 0u;
+        err = COObjRdBufCont(srv->Obj, srv->Node, srv->Buf.Start + srv->Buf.Num, num);
+        if (err != CO_ERR_NONE) {
+            srv->Node->Error = CO_ERR_SDO_READ;
         }
+        srv->Buf.Num  += num;
+        srv->Blk.Size -= num;
     }
 
-    if (num > 0u) {
-        if (srv->Blk.Size > num) {
-            /* fill remaining buffer with data from object entry */
-            err = COObjRdBufCont(srv->Obj, srv->Node, srv->Buf.Cur, num);
-            if (err != CO_ERR_NONE) {
-                srv->Node->Error = CO_ERR_SDO_READ;
-            }
-            srv->Blk.Size -= num;
-        } else {
-            /* read remaining data from object entry in buffer */
-            if (srv->Blk.Size <= 4) {
-                err = COObjRdBufCont(srv->Obj, srv->Node, srv->Buf.Cur, srv->Blk.Size);
-            } else {
-                err = COObjRdBufCont(srv->Obj, srv->Node, srv->Buf.Cur, num);
-            } 
-            if (err != CO_ERR_NONE) {
-                srv->Node->Error = CO_ERR_SDO_READ;
-            }
-            srv->Blk.Size = 0;
-        }
-    }
-
-    /* set DLC for block transfers */
+    /* send the block: at maximum the requested number of segments */
     CO_SET_DLC(srv->Frm, 8u);
-
     srv->Blk.State  = BLK_UPLOAD;
-    srv->Blk.SegCnt = 1;
+    srv->Blk.SegCnt = 0;
     srv->Buf.Cur    = srv->Buf.Start;
-    while ((srv->Blk.SegCnt <= srv->Blk.SegNum) && (finished == 0)) {
-        seg  = srv->Blk.SegCnt;
-        size = srv->Blk.Len;
-        if (size > 7) {
-            len           = 7;
-            srv->Blk.Len -= 7;
-            if (srv->Blk.SegCnt < srv->Blk.SegNum) {
-                srv->Blk.SegCnt++;
-            } else {
-                finished = 1;
-            }
+    rest            = srv->Buf.Num;
+    while ((srv->Blk.SegCnt < srv->Blk.SegNum) && (rest > 0u)) {
+        srv->Blk.SegCnt++;
+        seg = srv->Blk.SegCnt;
+        if (rest > 7u) {
+            len = 7;
         } else {
-            len          = (uint8_t)size;
-            srv->Blk.Len = 0;
-            finished     = 1;
+            len = (uint8_t)rest;
         }
-        if (finished == 1) {
-            if (srv->Blk.Len == 0) {
-                seg |= 0x80;
-            }
-            srv->Blk.LastValid  = len;
+        rest -= len;
+        if ((rest == 0u) && (srv->Blk.Size == 0u)) {
+            seg |= 0x80;                          /* last segment of object */
         }
+        srv->Blk.LastValid = len;
+
         CO_SET_BYTE(srv->Frm, seg, 0);
         for (i = 0; i < len; i++) {
-            CO_SET_BYTE(srv->Frm, *(srv->Buf.Cur), 1+i);
+            CO_SET_BYTE(srv->Frm, *(srv->Buf.Cur), 1 + i);
             srv->Buf.Cur++;
-            srv->Buf.Num--;
         }
         for (i = (uint8_t)len; i < 7; i++) {
             CO_SET_BYTE(srv->Frm, 0, 1 + i);
         }
         (void)COIfCanSend(&srv->Node->If, srv->Frm);
     }
+
+    /* number of object bytes, which are not sent up to now */
+    srv->Blk.Len = rest + srv->Blk.Size;
+
     return (result);
 }
 
@@ -908,11 +890,9 @@ CO_ERR COSdoAckUploadBlock(CO_SDO *srv)
         COSdoAbort(srv, CO_SDO_ERR_SEQ_NUM);
         COSdoAbortReq(srv);
         return (CO_ERR_SDO_ABORT);
-    } else if (seq < srv->Blk.SegCnt) {
-        srv->Blk.State = BLK_REPEAT;
-        srv->Blk.SegOk = seq;
-        result         = COSdoUploadBlock(srv);
-    } else if (srv->Blk.Len == 0) {
+
+    } else if ((seq == srv->Blk.SegCnt) && (srv->Blk.Len == 0)) {
+        /* last segment of object is acknowledged */
         if (srv->Blk.LastValid <= 7) {
             val = (uint8_t)srv->Blk.LastValid;
             cmd = (uint8_t)0xC0 |
@@ -925,19 +905,24 @@ CO_ERR COSdoAckUploadBlock(CO_SDO *srv)
             result = CO_ERR_NONE;
         }
     } else {
-        srv->Blk.SegNum = CO_GET_BYTE(srv->Frm, 2);
-        if ((srv->Blk.SegNum < 0x01) ||
-            (srv->Blk.SegNum > 0x7F)) {
+        /* send the next block behind the acknowledged segments, with
+         * the number of segments the client requests for this block
+         */
+        val = CO_GET_BYTE(srv->Frm, 2);
+        if ((val < 0x01) ||
+            (val > 0x7F)) {
             COSdoAbort(srv, CO_SDO_ERR_BLK_SIZE);
             COSdoAbortReq(srv);
             return (CO_ERR_SDO_ABORT);
-        } else {
-            if (srv->Blk.SegNum > CO_SDO_BUF_SEG) {
-                srv->Blk.SegNum = CO_SDO_BUF_SEG;
-            }
         }
+        if (val > CO_SDO_BUF_SEG) {
+            val = CO_SDO_BUF_SEG;
+        }
+        srv->Blk.SegNum = val;
+        srv->Blk.SegOk  = seq;
         result = COSdoUploadBlock(srv);
     }
+
     return (result);
 }
 
